@@ -61,6 +61,14 @@ def apply_constraints(obj, T, skip=False):
         obj = obj.subtype(subtypeSpec=constraint.ValueRangeConstraint(*T['range']))
     if 'size' in T:
         obj = obj.subtype(subtypeSpec=constraint.ValueSizeConstraint(*T['size']))
+    if T.get('one'):
+        # WITH COMPONENTS { a (lo..hi) PRESENT }: one constraint that names a component twice (the spelling the library
+        # has for "value constraint and presence constraint on the same component"), in either order
+        entries = [(n, constraint.ComponentPresentConstraint()) for n in T['present']] + \
+                  [(n, constraint.ValueRangeConstraint(lo, hi)) for n, (lo, hi) in sorted(T['within'].items())]
+        if T['one'] == 'rev':
+            entries.reverse()
+        return obj.subtype(subtypeSpec=constraint.WithComponentsConstraint(*entries))
     if 'present' in T:
         obj = obj.subtype(subtypeSpec=constraint.WithComponentsConstraint(
             *[(n, constraint.ComponentPresentConstraint()) for n in T['present']]))
@@ -77,7 +85,7 @@ def apply_constraints(obj, T, skip=False):
 
 def strip_constraints(T):
     """the unconstrained twin of a universe type (same tags and structure)"""
-    t = {k: v for k, v in T.items() if k not in ('range', 'size', 'present', 'absent', 'within', 'violating')}
+    t = {k: v for k, v in T.items() if k not in ('range', 'size', 'present', 'absent', 'within', 'violating', 'one')}
     if 'fields' in t:
         t['fields'] = [(n, strip_constraints(ft), m) for n, ft, m in t['fields']]
     if 'elem' in t:
